@@ -158,6 +158,14 @@ Definition selected (q : quirks) (c : case) : lres :=
     end
   end.
 
+(* parse_config_file / parse_pyproject_toml hand their result through _normalize_config_keys *)
+Definition norm_for (k : ckind) (raw : dict) : dict :=
+  match k with
+  | KPy => if pyproject_parser_normalises then normalize_top raw else raw
+  | KNone => normalize_top raw
+  | _ => if file_parser_normalises then normalize_top raw else raw
+  end.
+
 (* `dry --config F`: the file is read with yaml.safe_load and only its "dry" entry is merged *)
 Definition dry_merge (q : quirks) (c : case) : bool :=
   has q "dry_config_option_merges_section_only" && dry_dash_config_special && String.eqb (c_cmd c) "dry"
@@ -166,17 +174,17 @@ Definition dry_merge (q : quirks) (c : case) : bool :=
 Definition loaded (q : quirks) (c : case) : option dict :=
   if dry_merge q c then
     match discovered q (c_proj c), p_dash (c_proj c) with
-    | LDoc _ raw, Some d =>
+    | LDoc k raw, Some d =>
       match d_file d with
       | Doc r => Some match get dry_dash_config_key r with
-                      | Some v => dict_set dry_dash_config_key v (normalize_top raw)
-                      | None => normalize_top raw
+                      | Some v => dict_set dry_dash_config_key v (norm_for k raw)
+                      | None => norm_for k raw
                       end
       | _ => None
       end
     | _, _ => None
     end
-  else match selected q c with LErr => None | LDoc _ raw => Some (normalize_top raw) end.
+  else match selected q c with LErr => None | LDoc k raw => Some (norm_for k raw) end.
 
 (* ------------------------------------------------------------------ repository-level ignore list *)
 Definition pats (raw : dict) : list string := str_list (get repo_ignore_key raw).
